@@ -32,7 +32,7 @@ ASSUMPTIONS = ["geometry (projection points, relative positions, dist_obs) is ta
 
 
 def gen_case(rng, i, tier):
-    case = mcase.gen_mcase(rng, ne=(rng.random() < 0.7), width="maybe", tighten_p=0.2, sparse_p=0.35, max_obs=9)
+    case = mcase.gen_mcase(rng, families=gen.FAMILIES_ALL, ne=(rng.random() < 0.7), width="maybe", tighten_p=0.2, sparse_p=0.35, max_obs=9)
     if rng.random() < 0.15:
         from .C05 import to_latlon
         to_latlon(case, rng)  # street-scale latitude-longitude map, parameters in metres
@@ -111,7 +111,7 @@ def check_case(ctx, case):
             if kind.startswith("reported-") or kind == "node-distance-wrong":
                 ctx.violation(f"C02:geometry:{kind}:{'latlon' if model.latlon else 'planar'}", case, f"after operation #{i} {op}: {text}")
                 break
-        for kind, text in oracles.rescore_path(mt, fam, model, counters, stamps=ctx.state["stamps"]):
+        for kind, text in oracles.rescore_path(mt, fam, model, counters, stamps=ctx.state["stamps"], cfg=case["cfg"]):
             order = "second-order" if case["cfg"]["agb"] else "first-order"
             if "stale-child" in kind:
                 ctx.violation(f"C02:{kind}", case, f"after operation #{i} {op} [{fam}, {order}]: {text}")
